@@ -989,6 +989,56 @@ func c09ChildVisit(sp c09Spec) {
 			}
 		}(g)
 	}
+	// mailboxes whose old mail expires under the scanner's hands while fresh mail arrives: the fresh mail must stay (no lost mail)
+	var agedOut, freshKept atomic.Int64
+	for g := 0; g < 2; g++ {
+		wg.Add(2)
+		box := fmt.Sprintf("aging-%d-%s", g, c09Other())
+		go func(g int) { // the past: one message older than the retention period at a time
+			slot := w.slot()
+			slot.note(ident + " aging mailbox: old mail")
+			defer guard("add old mail", slot)
+			for time.Now().Before(stop) {
+				slot.beat()
+				id, err := st.AddMessage(c09Delivery(box, 2, 40, time.Now().Add(-2*time.Hour)))
+				if err != nil {
+					c09Fail("op-error", fmt.Sprintf("AddMessage(%q) of a back-dated message failed: %v", box, err), ident)
+					return
+				}
+				for time.Now().Before(stop) { // until the scanner has taken it
+					if m, err := st.GetMessage(box, id); err != nil || m == nil {
+						agedOut.Add(1)
+						break
+					}
+					c09Pause(200)
+				}
+			}
+		}(g)
+		go func(g int) { // the present: fresh mail to the same mailbox, removed by nobody but this goroutine
+			slot := w.slot()
+			slot.note(ident + " aging mailbox: fresh mail")
+			defer guard("add fresh mail", slot)
+			r := rand.New(rand.NewSource(sp.Seed + 31337 + int64(g)))
+			for time.Now().Before(stop) {
+				slot.beat()
+				c09Pause(r.Intn(3000))
+				id, err := st.AddMessage(c09Delivery(box, 3, 40+r.Intn(100), time.Now()))
+				if err != nil {
+					c09Fail("op-error", fmt.Sprintf("AddMessage(%q) of a fresh message failed: %v", box, err), ident)
+					continue
+				}
+				c09Pause(r.Intn(6000))
+				if m, err := st.GetMessage(box, id); err != nil || m == nil {
+					c09Fail("delivered-stays", fmt.Sprintf("fresh message %s/%s (dated now, retention period 1h, removed by no client) is gone while the retention scanner ran: %v", box, id, err), ident)
+					continue
+				}
+				freshKept.Add(1)
+				if err := st.RemoveMessage(box, id); err != nil {
+					c09Fail("op-error", fmt.Sprintf("RemoveMessage(%q,%q) of a fresh message only this client removes failed: %v", box, id, err), ident)
+				}
+			}
+		}(g)
+	}
 	wg.Add(1)
 	go func() {
 		slot := w.slot()
@@ -1015,7 +1065,7 @@ func c09ChildVisit(sp c09Spec) {
 		}
 	}
 	lead.done()
-	s := c09LinStats{Fails: c09FailStats(), Extra: map[string]int{"cycles": int(cycles.Load()), "visits": int(visits.Load()), "scans": int(scans.Load())}}
+	s := c09LinStats{Fails: c09FailStats(), Extra: map[string]int{"cycles": int(cycles.Load()), "visits": int(visits.Load()), "scans": int(scans.Load()), "aged-out-under-fresh-mail": int(agedOut.Load()), "fresh-kept": int(freshKept.Load())}}
 	b, _ := json.Marshal(s)
 	c09Out("S %s", b)
 }
